@@ -730,6 +730,14 @@ fn caught<T>(f: impl FnOnce() -> T) -> Result<T, String> {
     })
 }
 
+/// equality of two printed outcomes up to the wording of a crate-written panic message (`wire::classify`'s
+/// `custom:` class stands for whichever documented class is expected)
+fn same_outcome(got: &str, want: &str) -> bool {
+    got == want
+        || (got.starts_with("panic custom:") && want.starts_with("panic ") && !want.starts_with("panic internal:"))
+        || (want.starts_with("panic custom:") && got.starts_with("panic ") && !got.starts_with("panic internal:"))
+}
+
 /// what the form is expected to print given the canonical outcome
 fn expected(f: &Form, canon: &Result<R, String>) -> String {
     let checked = (12..=15).contains(&f.op);
@@ -779,7 +787,7 @@ fn run(id: u32, toks: &[&str]) -> Option<String> {
         Ok(r) => r.show(),
         Err(c) => format!("panic {}", c),
     };
-    if got != expected(&f, &canon) {
+    if !same_outcome(&got, &expected(&f, &canon)) {
         return Some(format!("panic internal:form-mismatch:{}", id));
     }
     Some(got)
@@ -828,7 +836,7 @@ fn run_t(id: u32, toks: &[&str]) -> Option<String> {
         Ok(r) => r.show(),
         Err(c) => format!("panic {}", c),
     };
-    if got != expected(&f, &canon) {
+    if !same_outcome(&got, &expected(&f, &canon)) {
         return Some(format!("panic internal:form-mismatch:t{}", id));
     }
     Some(got)
